@@ -32,6 +32,8 @@ type Context struct {
 	sequenceID     int32
 	committedRAT   *comp.RAT[RegisterType, int32]
 	transactionRAT *comp.RAT[RegisterType, transactionUnit]
+	// Sequence number of the write each committed register value comes from
+	committedSequenceID map[RegisterType]int32
 	rat            bool
 }
 
@@ -53,6 +55,7 @@ func NewContext(debug bool, memoryBytes int, rat bool) *Context {
 		Debug:                       debug,
 		committedRAT:                comp.NewRAT[RegisterType, int32](ratLength),
 		transactionRAT:              comp.NewRAT[RegisterType, transactionUnit](ratLength),
+		committedSequenceID:         make(map[RegisterType]int32),
 		rat:                         rat,
 	}
 }
@@ -138,6 +141,12 @@ func (ctx *Context) TransactionRATWrite(exe Execution, sequenceID int32) {
 	// older instruction (a cache-missing load) can complete after a younger
 	// writer of the same register. The younger writes have to remain the most
 	// recent ones, so they are written again on top of the older one.
+	// ... and an older instruction can even complete after a younger writer of
+	// the register was committed (a branch resolved in between): its result is
+	// dead, the committed value is the more recent one.
+	if sequenceID < ctx.committedSequenceID[exe.Register] {
+		return
+	}
 	var younger []transactionUnit
 	for _, tu := range ctx.transactionRAT.Recent(exe.Register) {
 		if tu.sequenceID <= sequenceID {
@@ -154,6 +163,7 @@ func (ctx *Context) TransactionRATWrite(exe Execution, sequenceID int32) {
 func (ctx *Context) RATCommit() {
 	for register, tu := range ctx.transactionRAT.Values() {
 		ctx.committedRAT.Write(register, tu.value)
+		ctx.committedSequenceID[register] = tu.sequenceID
 	}
 	ctx.transactionRAT = comp.NewRAT[RegisterType, transactionUnit](ratLength)
 }
@@ -163,6 +173,7 @@ func (ctx *Context) RATRollback(sequenceID int32) {
 		return u.sequenceID < sequenceID
 	}) {
 		ctx.committedRAT.Write(register, tu.value)
+		ctx.committedSequenceID[register] = tu.sequenceID
 	}
 	ctx.transactionRAT = comp.NewRAT[RegisterType, transactionUnit](ratLength)
 }
